@@ -275,19 +275,20 @@ def contains_assertion(rec):
 
 def judge_c02(ctx, model, recs):
     """R-COMPOSE: structure of depth-1 and depth-2 emissions against the parenthesised reference."""
-    n = 0
     f_inf = model.method(PRE, "Pregex", "__infer_type")
-    for r in recs:
+
+    def judge_rec(ctx, r):
+        n = 0
         if "incomplete" in r:
             raise AnalysisError(f"R-COMPOSE: {describe(r)}: {r['incomplete']}")
         if "leaf_error" in r:
             ctx.violation("R-COMPOSE", f_inf.relpath, "<leaf construction>", leaf_label(r["x"]), f"a leaf cannot be built ({r['leaf_error']})")
-            continue
+            return n
         if "E_raise" in r:
             if r["E_raise"] not in ("CannotBeRepeatedException",):     # repeatability is C09's business
                 ctx.violation("R-COMPOSE", f_inf.relpath, f"Pregex.{_meth(r['op'])}", "composition raises",
                               "a builder fails on assertion-free, fixed-width operands", inp=describe(r), detail=r["E_raise"])
-            continue
+            return n
         n += 1
         ok, why = B.same_structure(r["E"], ref1(r["op"], r["X"], r["Y"]))
         ctx.instance("R-COMPOSE", key=describe(r), sample=f"{describe(r)} -> {r['E']!r}")
@@ -313,7 +314,8 @@ def judge_c02(ctx, model, recs):
                               f"{r['op']}-expression is not kept intact as an operand",
                               "the type inferred for an emitted expression makes the next builder bind to a fragment of it "
                               "(emitter and classifier disagree)", f_inf.node.lineno, inp=inp, detail=why)
-    return n
+        return n
+    return sum(ctx.parallel(recs, judge_rec))
 
 
 def judge_c09(ctx, model, recs):
